@@ -278,6 +278,57 @@ def group_key_rule(ck, prog):
         t = f.term(sb)
         if t["k"] == "switch":
             seen |= keys_in(g.walk(ops=[t["d"]], at=(sb, T), through=lambda tt: True))
+    # a key COMPUTED from the two values (packed into one integer) must be injective over every kind of assertion: single assertions have
+    # stride 0 and any first step, strided ones a power-of-two stride and a first step below it. The key expression is evaluated on that
+    # model (seed C16-R: `stride | first_step` gives a single assertion at step stride + first_step the key of the strided one)
+    from .exempt import expr_at, strip_conv
+    for b, t in f.calls():
+        cn = callee_name(t) or ""
+        if not (("BTreeMap::" in cn or "HashMap::" in cn) and cn.split("::")[-1] in ("entry", "get", "get_mut", "insert", "contains_key")) or len(t["args"]) < 2:
+            continue
+        ke = strip_conv(expr_at(f, t["args"][1]))
+        if ke[0] in ("agg",):
+            continue       # a tuple / struct of the two values: injective by construction
+
+        def ev(e):
+            e = strip_conv(e)
+            if e[0] == "k":
+                return e[1] if isinstance(e[1], int) else None
+            if e[0] == "call" and e[1].endswith("Assertion::stride"):
+                return cur[0]
+            if e[0] == "call" and e[1].endswith("Assertion::first_step"):
+                return cur[1]
+            if e[0] == "field" and isinstance(e[1], str):
+                return {"stride": cur[0], "first_step": cur[1]}.get(e[1])
+            if e[0] == "op":
+                a_, b_ = ev(e[2]), ev(e[3])
+                if a_ is None or b_ is None:
+                    return None
+                try:
+                    return {"Add": a_ + b_, "Sub": a_ - b_, "Mul": a_ * b_, "BitOr": a_ | b_, "BitXor": a_ ^ b_, "BitAnd": a_ & b_,
+                            "Shl": a_ << b_ if 0 <= b_ < 64 else None, "Shr": a_ >> b_ if 0 <= b_ < 64 else None}.get(e[1])
+                except Exception:
+                    return None
+            return None
+        nmax = 32
+        model = [(0, st_) for st_ in range(nmax)] + [(S_, a_) for S_ in (2, 4, 8, 16, 32) for a_ in range(S_)]
+        keys, clash, undecided = {}, None, False
+        for cur in model:
+            kv = ev(ke)
+            if kv is None:
+                undecided = True
+                break
+            if kv in keys and keys[kv] != cur and clash is None:
+                clash = (keys[kv], cur, kv)
+            keys.setdefault(kv, cur)
+        if undecided:
+            ck.note("GROUPKEY: the map key is computed by an expression the rule cannot evaluate; its injectivity is not decided")
+            continue
+        ck.ob("GROUPKEY", "group_constraints:key-injective", clash is None,
+              "the computed map key separates every two assertions that differ in stride or first step (single, periodic and sequence kinds; "
+              f"{len(model)} model points)", loc=f.loc(b, T),
+              detail=None if clash is None else f"(stride, first step) = {clash[0]} and {clash[1]} get the same key {clash[2]}: the second assertion joins the "
+                                                "first one's group and is enforced under its divisor")
     ok = seen == {"stride", "first_step"}
     ck.ob("GROUPKEY", "group_constraints:stride-and-first-step", ok,
           "group_constraints selects the group of an assertion by its stride and its first step", loc=f0.loc(),
